@@ -2,6 +2,7 @@ package main
 
 import (
 	"fmt"
+	"github.com/openfga/language/pkg/go/transformer"
 	"google.golang.org/protobuf/encoding/protojson"
 	"math/rand"
 	"sort"
@@ -138,15 +139,16 @@ func parseSpec(s string) specRes {
 }
 
 type wCase struct {
-	m        *Model
-	pm       *openfgav1.AuthorizationModel
-	canon    string
-	kf       bool
-	unforced []wResult
-	forced   []wResult
-	orders   [][]string
-	spec     specRes
-	specE    specRes
+	parserIdx int
+	m         *Model
+	pm        *openfgav1.AuthorizationModel
+	canon     string
+	kf        bool
+	unforced  []wResult
+	forced    []wResult
+	orders    [][]string
+	spec      specRes
+	specE     specRes
 }
 
 func allPerms(xs []string) [][]string {
@@ -179,6 +181,15 @@ func evalWCases(c *Ctx, rng *rand.Rand, models []*Model, reps, exhaustiveUpTo, s
 		wc.canon = canonModel(wc.pm)
 		for r := 0; r < reps; r++ {
 			wc.unforced = append(wc.unforced, realWBuild(wc.pm))
+		}
+		// the same model as the DSL parser returns it (present-but-empty slices and maps instead of nil
+		// ones): an equal model must get the equal verdict and weights
+		wc.parserIdx = -1
+		if text, _ := Render(m, nil); text != "" {
+			if parsed, err := transformer.TransformDSLToProto(text); err == nil && canonModel(parsed) == wc.canon {
+				wc.parserIdx = len(wc.unforced)
+				wc.unforced = append(wc.unforced, realWBuild(parsed))
+			}
 		}
 		if hooksAvailable {
 			first, labels := hookWBuild(wc.pm, nil)
@@ -282,6 +293,9 @@ func wildEqual(real map[string][]string, spec map[string][]string) string {
 func (wc *wCase) all() []wResult { return append(append([]wResult{}, wc.unforced...), wc.forced...) }
 
 func (wc *wCase) orderOf(i int) any {
+	if i == wc.parserIdx {
+		return "Build (Go map order) on the proto returned by TransformDSLToProto(render(model)): empty non-nil slices/maps"
+	}
 	if i < len(wc.unforced) {
 		return "Build (Go map order)"
 	}
